@@ -53,6 +53,11 @@ def pix_objects(mod, units=None):
     from contracts.sqw_real import ROWS, ROW_UNITS
     src_units = units or ('1/angstrom', '1/angstrom', '1/angstrom', 'meV', None, None, None, 'count', 'count**2')
     rows = [M.SymRow(i, N, u, ROWS[i], declared=ROW_UNITS[i]) for i, u in enumerate(src_units)]
+    import inspect
+    try:
+        inspect.signature(mod._PixWrap).bind(row_data=rows, row_units=ROW_UNITS)
+    except TypeError as e:
+        raise core.Unsupported(f'_PixWrap is not made from (row_data, row_units) any more: {e}') from None
     return mod._PixWrap(row_data=rows, row_units=ROW_UNITS), N
 
 
